@@ -70,4 +70,16 @@ CHECKS = {
         "level_note": "Domain = values that encoding/json round-trips; reflect.DeepEqual is the equality.",
         "assumptions": ["a value is 'JSON-representable' iff encoding/json round-trips it"],
     },
+    "C02": {
+        "pkg": "c02", "variants": [PLAIN],
+        "rule": ("rapid draws a destination type (C01 grammar + Unmarshaler/TextUnmarshaler leaves, structs up to 18 fields), a valid UTF-8 JSON document (70% type-directed: "
+                 "the destination's keys in exact/case-variant/escaped spellings, unknown and duplicate members, arrays shorter/longer than the Go array, integers at and beyond each kind's "
+                 "range, null and wrong-kind values at every position; 30% free grammar), an initial destination (zero, or one recipe instantiated twice) and the entry "
+                 "(Unmarshal, UnmarshalWithOption, UnmarshalContext, Decoder with UseNumber / DisallowUnknownFields). Oracle: encoding/json on an identical destination: error iff error; "
+                 "both succeed => reflect.DeepEqual (incl. the bytes recording Unmarshalers received). Non-trivial = document has >= 3 tokens; distinct by hash(type, doc, recipe, entry)."),
+        "technique": "property-based differential testing against encoding/json over generated destination types x type-directed documents x initial destinations (rapid, shrinking)",
+        "level_text": "Randomised differential exploration against encoding/json; exploration level.",
+        "level_note": "Oracle encoding/json go1.23.5. Destination contents are not compared when both err (go-json stops at the first type error by design).",
+        "assumptions": ["documents are generated valid (checked with the recogniser on every case)"],
+    },
 }
